@@ -30,7 +30,12 @@ def main():
     ap.add_argument('--replay', default=None)
     a = ap.parse_args()
     prop = a.prop.upper()
-    mod = importlib.import_module('c' + prop[1:].lower())
+    try:
+        mod = importlib.import_module('c' + prop[1:].lower())
+    except Exception:
+        traceback.print_exc()
+        print('INFRASTRUCTURE-ERROR: no loadable harness module for %s' % prop)
+        return 2
     ctx = common.Ctx(prop, a.tier, a.seed)
     if a.replay:
         if not hasattr(mod, 'replay'):
@@ -39,23 +44,50 @@ def main():
             return 0
         return mod.replay(ctx, a.replay)
     running_body = False
+    # lean/TamocV/Gen is regenerated from the repository under test and shared by every check of this working tree: a check
+    # that regenerates it (GEN non-empty) keeps the lock until it has finished, so that a concurrent check against ANOTHER
+    # copy of the repository cannot swap the generated model between this check's build and its audits / driver runs
+    lock = common.BuildLock()
+    lock.__enter__()
+    held = [True]
+
+    def release():
+        if held[0]:
+            held[0] = False
+            lock.__exit__(None, None, None)
+    import atexit
+    atexit.register(release)
     try:
-        with common.BuildLock():
+        try:
             common.run_gen(ctx, getattr(mod, 'GEN', []))
             build_ok, _log = common.lake_build(ctx, mod.MODULES)
             drv_ok = True
             if getattr(mod, 'DRIVER_MODULES', None):
                 drv_ok, _ = common.lake_build(ctx, mod.DRIVER_MODULES)
+        finally:
+            if not getattr(mod, 'GEN', []):
+                release()
         common.source_audit(ctx, mod.audit_files())
         if build_ok:
             common.axiom_audit(ctx, mod.MODULES[0], 'TamocV.Props.' + prop)
             # the theorem inventory is pinned: a property theorem that disappears (or is renamed away) is a broken obligation
             pin = os.path.join(common.VERIF, 'harness', 'theorems', prop + '.txt')
             if os.path.exists(pin):
-                want = set(open(pin).read().split())
-                have = set(t.split('.')[-1] for t in ctx.theorems)
-                ctx.oblige('pinned theorem inventory of %s (%d names)' % (prop, len(want)), want <= have,
-                           'missing: %r' % sorted(want - have))
+                # one line per property theorem: <name relative to TamocV.Props.Cxx> <hash of its TYPE> <GEN|->.  A theorem that
+                # disappears or moves to another namespace, whose statement changes (weakened to True, an added hypothesis, another
+                # conclusion), or that stops mentioning the regenerated definitions (TamocV.Gen.*) it is about, is a broken obligation.
+                pre = 'TamocV.Props.' + prop + '.'
+                have = {n[len(pre):]: v for n, v in getattr(ctx, 'stmts', {}).items() if n.startswith(pre)}
+                want = {}
+                for ln in open(pin).read().splitlines():
+                    f = ln.split()
+                    if f:
+                        want[f[0]] = tuple(f[1:3]) if len(f) >= 3 else None
+                missing = sorted(n for n in want if n not in have)
+                changed = sorted(n for n, v in want.items() if v is not None and n in have and have[n] != v)
+                ctx.oblige('pinned theorem inventory of %s (%d statements: names, statement hashes, reference to regenerated code)'
+                           % (prop, len(want)), not missing and not changed,
+                           'missing: %r; statement or Gen-reference changed: %r' % (missing, [(n, want[n], have[n]) for n in changed]))
             if ctx.thorough and getattr(mod, 'LEANCHECKER', True):
                 p = subprocess.run(['lake', 'env', 'leanchecker', mod.MODULES[0]], cwd=common.LEAN,
                                    stdout=subprocess.PIPE, stderr=subprocess.STDOUT, text=True, timeout=3000)
@@ -73,6 +105,11 @@ def main():
         tb = traceback.extract_tb(e.__traceback__)
         pkg = os.path.join(os.path.realpath(common.REPO), 'tamoc') + os.sep
         inner = [f for f in tb if os.path.realpath(f.filename).startswith(pkg)]
+        hdir = os.path.join(common.VERIF, 'harness') + os.sep
+        last_pkg = max([i for i, f in enumerate(tb) if os.path.realpath(f.filename).startswith(pkg)], default=-1)
+        last_har = max([i for i, f in enumerate(tb) if os.path.realpath(f.filename).startswith(hdir)], default=-1)
+        if last_har > last_pkg:
+            inner = []          # raised in harness code that the package called back into (a recorder / wrapper): not the package's raise
         if not inner:
             # Not raised by the package.  If the harness itself tripped over a value / shape it read back from the code under
             # test (IndexError, KeyError, ValueError, TypeError, ... inside harness/cXX.py while the check body ran), the
@@ -110,4 +147,13 @@ def main():
 
 
 if __name__ == '__main__':
-    sys.exit(main())
+    try:
+        rc = main()
+    except SystemExit:
+        raise
+    except BaseException:
+        # anything that escapes the decision procedure itself (extra(), finish(), evidence writing) is an infrastructure failure
+        traceback.print_exc()
+        print('INFRASTRUCTURE-ERROR in the check driver')
+        rc = 2
+    sys.exit(rc)
